@@ -20,7 +20,7 @@ FAULT_DIMENSION = ("party mutates handed SessionInfo / InfrastructureInfo / Cons
 ASSUMPTIONS = ["'handed' = argument of schedule(), results of active_sessions(), infrastructure_info(), get_constraints()",
                "truth for delivered energy/rates/pilots is the end-of-period tap of the previous period"]
 
-PROFILE = world.profile(aware_start=0.25, reconfig=0.25, custom_events=0.25, faults={"mutate": 1.2, "crash": 0.3, "mutate_crash": 0.4}, resume_modes=["rerun"],
+PROFILE = world.profile(zero_demand=0.05, aware_start=0.25, reconfig=0.25, custom_events=0.25, faults={"mutate": 1.2, "crash": 0.3, "mutate_crash": 0.4}, resume_modes=["rerun"],
                         max_recompute=[None, 1, 2, 3, 7], horizon=(6, 36), chain_fill=(0.2, 0.8), b2b=0.3,
                         demand=(0.02, 1.2), party={"scripted": 4, "uncontrolled": 2, "greedy": 3, "rr": 1},
                         evse_kinds={"cont": 4, "dead": 2, "finite": 3})
